@@ -14,11 +14,21 @@ RULE = ("one case = one lookup (start, end or None=now, now, optional metadata f
         "month), windows of 31-121 day folders whose start falls on every day of five months, explicit end and end = now, and "
         "the same a year later around a February of 28 days (`base_days`: the instants of a case are offsets from the "
         "driver's BASE + that many days; the model is invariant under whole-day shifts); "
+        "stream `subsecond`: recordings saved tenths of a second apart around two mid-day clock seconds and a midnight, every "
+        "window whose bounds (with microsecond parts, or whole seconds) fall between them - a recording saved within the clock "
+        "second of a bound, on either side of it; stream `limit` (implementation side only): a handful of recordings on a few "
+        "days of a two month range (empty day folders, recordings outside the window in the edge folders, recordings that do "
+        "not satisfy the filter), windows of 1-60 day folders looked up with limit 1-40 - fewer and more than the day folders "
+        "and than the matching recordings -, as a random sample and in order: min(limit, matching) ids, all matching and inside; "
+        "every sixth case is run a second time in a process whose time zone is not UTC (TZ = America/New_York, Asia/Kolkata, "
+        "Pacific/Auckland, America/Los_Angeles + tzset; the fake clock stays UTC): the bounds are naive UTC datetimes; "
         "every third case is run a second time with logging enabled (root logger at DEBUG / INFO with a formatting handler): "
         "the process configuration is not an input of the lookup; non-trivial = window non-empty and not covering everything; "
         "distinct = distinct (times, tags, start, end, now, filter, random)")
 EXHAUSTIVE = {"quick": False, "thorough": True}
-ASSUMPTIONS = ["process clock in UTC (datetime.today() == utcnow(), both replaced by the fake clock)",
+ASSUMPTIONS = ["process clock in UTC (datetime.today() == utcnow(), both replaced by the fake clock - also in the cases run under "
+               "another TZ, which therefore only exercise the conversion of the window bounds, not the choice of the day folder "
+               "of a new recording)",
                "strftime('%Y%m%d') injective and monotone on days (exercised across a leap day, seven month boundaries and a "
                "year boundary)",
                "S3 last_modified of an object = instant of its put (fake bucket)"]
@@ -28,13 +38,15 @@ TRUSTED = ["fake bucket behind the real S3BasicFacade; fake clock substituted fo
 NTAGS = 3
 
 
-def _case(times, tags, start, end, now, flt=None, rnd=False, keep=None, base_days=0):
+def _case(times, tags, start, end, now, flt=None, rnd=False, keep=None, base_days=0, limit=None):
     if keep is not None:
         pairs = [(t, g) for t, g in zip(times, tags) if keep(t)]
         times, tags = [t for t, _ in pairs], [g for _, g in pairs]
     c = dict(times=times, tags=tags, start=start, end=end, now=now, filter=flt, random=rnd)
     if base_days:
         c["base_days"] = base_days     # all instants of the case are offsets from the driver's BASE + that many days
+    if limit is not None:
+        c["limit"] = limit             # at most that many ids are asked for (implementation side only, see to_gallina)
     return c
 
 
@@ -76,13 +88,75 @@ def generate(rng, tier):
     # (own generator, after every draw of the streams above: those draw the same cases as before this stream existed)
     rng_w = __import__("random").Random(rng.getrandbits(64))
     cases += wide_cases(rng_w, tier)
+    # ---- bounds and save instants that differ by fractions of a second (the bounds are exact instants) --------------
+    cases += subsecond_cases()
+    # ---- lookups with a limit (ordered / random sample) over windows with more day folders than the limit ------------
+    cases += sparse_limit_cases(__import__("random").Random(rng_w.getrandbits(64)), tier)
     cases.sort(key=lambda c: (len(c["times"]), c["now"]))
     # ---- the process configuration is not an input of the lookup: every third case again with logging switched on ----
     # (root logger at DEBUG / INFO and a handler that formats every record, as when somebody investigates a lookup)
     again = [dict(c, log="INFO" if i % 12 == 10 else "DEBUG") for i, c in enumerate(cases) if i % 3 == 1]
+    # ---- nor is the host's time zone: the bounds are naive UTC datetimes whatever TZ the process runs under; every sixth
+    # case again under a zone west / east of UTC (the fake clock stays UTC: only conversions of the bounds can notice)
+    again += [dict(c, tz=ZONES[(i // 6) % len(ZONES)]) for i, c in enumerate(cases) if i % 6 == 2]
     cases += again
     cases.sort(key=lambda c: (len(c["times"]), c["now"]))
     return cases
+
+
+ZONES = ["America/New_York", "Asia/Kolkata", "Pacific/Auckland", "America/Los_Angeles"]
+SEC = 10**6
+
+
+def subsecond_cases():
+    """recordings saved a few tenths of a second apart around two clock seconds at mid-day and around a midnight; every
+    window whose bounds fall between them (microsecond parts on both bounds, whole seconds as well)"""
+    d1 = 24 * H
+    noon = d1 + 12 * H
+    times = sorted([noon + 300000, noon + 600001, noon + 900000, noon + SEC, noon + 5 * SEC + 200000,
+                    noon + 5 * SEC + 800000, noon + 5 * SEC + 950000, noon + 6 * SEC + 1,
+                    2 * d1 - 400000, 2 * d1 + 300000, 2 * d1 + 700000, 3 * H, 3 * d1 + 5 * H])
+    tags = [i % NTAGS for i in range(len(times))]
+    bounds = [noon, noon + 450000, noon + 600000, noon + 600001, noon + 999999, noon + 5 * SEC + 500000,
+              noon + 5 * SEC + 900000, noon + 6 * SEC, 2 * d1 - 200000, 2 * d1 + 500000, 2 * d1 + 999999]
+    now = 4 * d1
+    out = []
+    for a, s0 in enumerate(bounds):
+        for b, e0 in enumerate(bounds):
+            if e0 < s0:
+                continue
+            out.append(_case(times, tags, s0, e0, now, flt=(a + b) % NTAGS if (a + b) % 3 == 0 else None, rnd=(a + b) % 4 == 1))
+        out.append(_case(times, tags, s0, None, s0 + 2 * SEC + 250000, keep=lambda t: t <= s0 + 2 * SEC + 250000))
+    return out
+
+
+def sparse_limit_cases(rng, tier):
+    """a few recordings on a few days of a two month range (most day folders are empty, the folders of the two edge days
+    hold recordings outside the window, some recordings do not satisfy the filter); windows of 1-60 day folders looked up
+    with a limit below, at and above the number of matching recordings - and below the number of day folders -, as a
+    random sample and in order: min(limit, matching) ids have to come back, all inside the window"""
+    out = []
+    for variant in range(2 if tier == "quick" else 6):
+        ndays = 60
+        days = sorted(rng.sample(range(2, ndays - 2), 4 + variant % 3))
+        times = []
+        for d in days:
+            times += [d * DAYUS + rng.randrange(DAYUS) for _ in range(rng.choice([1, 1, 2]))]
+        s_day, e_day = days[0], days[-1]
+        start = s_day * DAYUS + 10 * H
+        end = e_day * DAYUS + 14 * H
+        times += [start - 1, start - 5 * H, end + 1, end + 3 * H, DAYUS // 2, (ndays - 1) * DAYUS + H]    # outside, same folders
+        times = sorted(set(times))
+        tags = [rng.randrange(2) for _ in times]
+        now = ndays * DAYUS + H
+        windows = [(start, end), (start, None), (days[1] * DAYUS - 3 * DAYUS, days[-2] * DAYUS + DAYUS + 5 * H),
+                   (days[1] * DAYUS, days[1] * DAYUS + 3 * DAYUS), (3 * H, now)]
+        for w, (s0, e0) in enumerate(windows):
+            for limit in (1, 2, 3, 5, 8, 40):
+                for rnd in (True, False):
+                    flt = (w + limit) % 2 if (w + limit + rnd) % 3 == 0 else None
+                    out.append(_case(times, tags, s0, e0, now, flt=flt, rnd=rnd, limit=limit))
+    return out
 
 
 DAYUS = 24 * H
@@ -153,6 +227,8 @@ def prelude(cases):
     out = []
     for c in cases:
         k = (tuple(c["times"]), tuple(tags_of(c)))
+        if c.get("limit") is not None:
+            continue
         if k not in seen:
             n = len(seen)
             seen[k] = "times_%d tags_%d" % (n, n)
@@ -163,6 +239,8 @@ def prelude(cases):
 
 
 def to_gallina(case, obs):
+    if case.get("limit") is not None:
+        return None                       # which ids a limited lookup returns is not determined: direct predicate only
     name = prelude.names[(tuple(case["times"]), tuple(tags_of(case)))]
     listed = obs.get("listed", [-1])
     if any(i < 0 for i in listed) or obs.get("n") != len(listed):
@@ -196,8 +274,20 @@ def direct(case, obs):
     want = [i for i in inside if flt is None or tags[i] == flt]
     got = obs["listed"]
     fails = []
-    if case.get("log"):
-        fails = _Tagged(" [lookup made with logging enabled at %s]" % case["log"])
+    if case.get("log") or case.get("tz"):
+        fails = _Tagged((" [lookup made with logging enabled at %s]" % case["log"] if case.get("log") else "") +
+                        (" [lookup made in a process whose time zone is TZ=%s; the bounds are naive UTC]" % case["tz"]
+                         if case.get("tz") else ""))
+    lim = case.get("limit")
+    if lim is not None:
+        # a limited lookup: min(limit, matching) ids, each of them a matching recording inside the window
+        if len(got) > lim:
+            fails.append(("more-than-limit", "limit %d, %d ids listed" % (lim, len(got))))
+        if len(got) < min(lim, len(want)):
+            fails.append(("missed-inside-window", "lookup with limit=%d (%s) over %d day folders listed %d ids although %d "
+                          "matching recordings lie inside the window: missed times(us)=%s" %
+                          (lim, "random sample" if case.get("random") else "ordered", e // DAYUS - case["start"] // DAYUS + 1,
+                           len(got), len(want), [case["times"][i] for i in sorted(set(want) - set(got))[:5]])))
     if len(set(got)) != len(got):
         fails.append(("duplicate", "a recording was listed twice: %s" % got))
     if obs["unknown"] or any(i < 0 for i in got):
@@ -208,7 +298,7 @@ def direct(case, obs):
     if unmatched:
         fails.append(("listed-not-matching", "recordings inside the window listed although their metadata does not "
                       "satisfy the filter g=%s: times(us)=%s" % (flt, [case["times"][i] for i in unmatched[:5]])))
-    if missed:
+    if missed and lim is None:
         fails.append(("missed-inside-window", "recordings inside the window not listed, times(us)=%s" %
                       [case["times"][i] for i in missed[:5]]))
     if extra:
@@ -239,6 +329,16 @@ def features(case):
         f.add("off-hour-grid")
     if case.get("log"):
         f.add("logging=" + case["log"])
+    if case.get("tz"):
+        f.add("process-time-zone=" + case["tz"])
+    if case["start"] % SEC or e % SEC:
+        f.add("bound-with-microseconds")
+        if any(t // SEC in (case["start"] // SEC, e // SEC) and t not in (case["start"], e) for t in case["times"]):
+            f.add("recording-saved-within-the-clock-second-of-a-bound")
+    if case.get("limit") is not None:
+        nf = e // DAYUS - case["start"] // DAYUS + 1 if e >= case["start"] else 0
+        f.add("limit:%s-than-day-folders,%s" % ("fewer" if case["limit"] < nf else "not-fewer",
+                                                  "random-sample" if case.get("random") else "ordered"))
     if e >= case["start"]:
         nf = e // DAYUS - case["start"] // DAYUS + 1
         f.add("day-folders=" + ("1" if nf == 1 else "2-7" if nf <= 7 else "8-31" if nf <= 31 else "32-62" if nf <= 62 else "63+"))
@@ -266,6 +366,8 @@ def shrink_candidates(case):
             yield dict(case, times=ts[:i] + ts[i + 1:], tags=gs[:i] + gs[i + 1:])
     if case.get("log"):
         yield dict(case, tags=gs, log=None)
+    if case.get("tz"):
+        yield dict(case, tags=gs, tz=None)
     if case.get("random"):
         yield dict(case, tags=gs, random=False)
     if case.get("filter") is not None:
@@ -274,7 +376,7 @@ def shrink_candidates(case):
 
 MANIFEST = dict(
     design_ref='6/C16',
-    text='Coq theorems over all integer instants (window exactness, also next to a metadata filter; day cover, nothing outside, distinct folders; legacy defect refuted with a witness) about a hand-written model of _get_id_prefixes + the facade predicate list (last-modified predicate, content predicate); model tied to /repo on every run by running the real S3TapeCassette (fake bucket, fake clock) and the model on the same window grid + random instants (4 days, hour / minute / microsecond level) and on wide windows (31-121 day folders over six and a half months, the start on every day of the month), each window without and (every second one) with a metadata filter, ordered or shuffled, every third case again with logging enabled at DEBUG / INFO; direct predicate on the implementation searches for a failing window.',
+    text='Coq theorems over all integer instants (window exactness, also next to a metadata filter; day cover, nothing outside, distinct folders; legacy defect refuted with a witness) about a hand-written model of _get_id_prefixes + the facade predicate list (last-modified predicate, content predicate); model tied to /repo on every run by running the real S3TapeCassette (fake bucket, fake clock) and the model on the same window grid + random instants (4 days, hour / minute / microsecond level) and on wide windows (31-121 day folders over six and a half months, the start on every day of the month), each window without and (every second one) with a metadata filter, ordered or shuffled, on bounds and save instants fractions of a second apart, on limited lookups (random sample / ordered, limit below the number of day folders; implementation side only), every third case again with logging enabled at DEBUG / INFO, every sixth again under a non-UTC process time zone; direct predicate on the implementation searches for a failing window.',
     note="Trusted: Coq kernel + vm_compute; hand-written model; correspondence harness (fake bucket behind the real S3BasicFacade, fake clock); strftime day formatting and 'process clock is UTC' are assumptions.",
     technique='Coq proof (lia over Z) + model/implementation correspondence by vm_compute',
 )
